@@ -541,3 +541,166 @@ PROPS["C10"] = {"run": lambda p, tier, seed, replay, t0: run_node_property(
         "passwords are modelled by the string itself: `u.pw = pw` stands for verify(pw, bcrypt hash) under the scheme law verify p (hash q) iff p = q (assumption about bcrypt); a raw token is identified by its creation index (digest injective: assumption about blake3)",
         "'never stored in clear' for the real code rests on the byte search of every file for every raw password and raw token used (a test); in the model journal entries can only carry hashes/digests by construction",
         "the few-microsecond difference between a token's runtime creation time and its journal timestamp does not exist under the virtual clock"])}
+
+
+# ------------------------------------------------------------------------------------------------
+# C04: crash images
+
+import shutil
+
+
+def run_c04(prop, tier, seed, replay, t0):
+    module = "Iggy.Props.C04"
+    vlib.lean_build([module, "judge"])
+    names, examples, axioms, bad = vlib.audit(module)
+    obligations = len(names) + examples
+    vlib.build_harness()
+    known = [k for k in vlib.load_known() if k["property"] == prop]
+    n = 40 if tier == "quick" else 400
+
+    def torn_points(length, rng, thorough):
+        if length <= 1:
+            return []
+        pts = {1, 23, 24, 25, length - 1} | {rng.randint(1, length - 1) for _ in range(3)}
+        if thorough:
+            pts |= set(range(1, min(length, 200)))
+        return sorted(j for j in pts if 0 < j < length)
+
+    def one(k):
+        rng = random.Random((seed << 20) ^ (k * 7919))
+        if replay:
+            lines = [l.rstrip("\n") for l in open(replay) if l.strip() and not l.startswith("#")]
+            cfg = dict(kv.split("=", 1) for kv in lines[0].split()[1:] if "=" in kv)
+            ops = lines[1:]
+        else:
+            cfg, ops = gen_storage.gen_crash(rng, prop, k)
+        wd = f"{vlib.WORK}/{prop}/h{k}"
+        images = wd + ".images"
+        shutil.rmtree(images, ignore_errors=True)
+        cfg2 = dict(cfg)
+        cfg2["images"] = images
+        trace = vlib.run_history(cfg2, ops, wd)
+        trace[0] = trace[0].replace(f" images={images}", "")
+        clock = 1_000_000
+        for o in ops:
+            if o.startswith("clock "):
+                clock = int(o.split()[1])
+        nparts = 1
+        for o in ops:
+            if o.startswith("create-topic"):
+                nparts = int(o.split()[5])
+        events = []
+        try:
+            for l in open(f"{images}/events.log"):
+                f = l.split()
+                events.append((int(f[0]), int(f[1]), f[2], f[3], int(f[4])))
+        except FileNotFoundError:
+            pass
+        chosen = events if tier == "thorough" else rng.sample(events, min(len(events), 14))
+        blocks, nimg = [], 0
+        for (ek, opi, kind, rel, ln) in sorted(chosen):
+            variants = [("full", None)]
+            if kind == "append":
+                variants += [(str(j), j) for j in torn_points(ln, rng, tier == "thorough")][: (None if tier == "thorough" else 5)]
+            for (tname, j) in variants:
+                rec = f"{wd}.rec"
+                shutil.rmtree(rec, ignore_errors=True)
+                shutil.copytree(f"{images}/{ek}", rec)
+                if j is not None:
+                    fp = os.path.join(rec, rel)
+                    try:
+                        size = os.path.getsize(fp)
+                        with open(fp, "r+b") as fh:
+                            fh.truncate(size - ln + j)
+                    except OSError:
+                        continue
+                node = vlib.Node(cfg, rec, clock + 1000)
+                lines = [f"start\t{node.ready or 'died'}"]
+                if node.ready.startswith("ready"):
+                    for pre in vlib.PREAMBLE:
+                        node.op(pre)
+                    for p in range(1, nparts + 1):
+                        for o in (f"poll 0 #1 #1 {p} c:#9 offset:0 100000 0",
+                                  f"send 0 #1 #1 pid:{p} {900000 + p}:20:{7000 + p}:0",
+                                  f"poll 0 #1 #1 {p} c:#9 offset:0 100000 0"):
+                            lines.append(f"{o}\t{node.op(o)}")
+                node.kill()
+                shutil.rmtree(rec, ignore_errors=True)
+                for side in (".stderr", ".tokens"):
+                    try:
+                        os.remove(rec + side)
+                    except OSError:
+                        pass
+                blocks.append(f"IMAGE {opi} {ek} {kind} {rel} {ln} {tname}\n" + "\n".join(lines) + "\nENDIMAGE")
+                nimg += 1
+        shutil.rmtree(images, ignore_errors=True)
+        full = trace + blocks
+        j = vlib.judge("crash", "\n".join(full).split("\n"))
+        return k, cfg, ops, full, j, nimg, len(events)
+
+    if replay:
+        k, cfg, ops, full, j, nimg, nev = one(0)
+        print(j["raw"])
+        hits = [l for l in j["spec"] if not any(re.search(kf["shape"], l) and vlib.spec_class(l).startswith(kf["class"]) for kf in known)]
+        return 1 if (hits or j["corr"]) else 0
+    results = vlib.parallel(one, list(range(n)))
+    spec_v, corr_d, known_hits, cov = [], [], {}, {}
+    images = sum(r[5] for r in results)
+    events = sum(r[6] for r in results)
+    for k, cfg, ops, full, j, nimg, nev in results:
+        for a, b in j["cov"].items():
+            cov[a] = cov.get(a, 0) + b
+        for l in j["spec"]:
+            kf = next((x for x in known if vlib.spec_class(l).startswith(x["class"]) and re.search(x["shape"], l)), None)
+            if kf:
+                known_hits[kf["what"]] = known_hits.get(kf["what"], 0) + 1
+            else:
+                spec_v.append((k, cfg, ops, full, l))
+        corr_d += [(k, cfg, ops, full, l) for l in j["corr"]]
+    rc, msgs = 0, []
+    for kf in known:
+        msgs.append(f"KNOWN-FINDING: property={prop} {kf['what']} (reproduced {known_hits.get(kf['what'], 0)}x in this run)")
+    if bad:
+        path = vlib.write_replay(prop, "audit.txt", "\n".join(bad))
+        msgs.append(f"VIOLATION property={prop} replay={path} no-failing-input-found")
+        rc = 1
+    if spec_v:
+        k, cfg, ops, full, l = spec_v[0]
+        body = "cfg " + " ".join(f"{a}={b}" for a, b in cfg.items()) + "\n" + "\n".join(ops) + "\n# " + l + "\n"
+        path = vlib.write_replay(prop, "violation.ops", body)
+        vlib.write_replay(prop, "violation.fulltrace", "\n".join(full) + "\n")
+        msgs.append(f"VIOLATION property={prop} replay={path}")
+        rc = 1
+    elif corr_d:
+        k, cfg, ops, full, l = corr_d[0]
+        body = "cfg " + " ".join(f"{a}={b}" for a, b in cfg.items()) + "\n" + "\n".join(ops) + "\n# correspondence no longer checks: " + l + "\n"
+        path = vlib.write_replay(prop, "correspondence.ops", body)
+        msgs.append(f"VIOLATION property={prop} replay={path} no-failing-input-found")
+        rc = 1
+    sample = results[0]
+    coverage = {
+        "obligations": obligations, "discharged": obligations if not bad else 0,
+        "checker_cmd": f"lake build {module} judge && lake env lean Iggy/Audit/C04.lean (#print axioms)",
+        "trusted_base": COMMON_TB + ["hook H2b (file-mutation events) + the harness's directory copy at every event; thorough tier: every event x every torn length of an append"],
+        "theorems": names, "nonvacuity_examples": examples, "axioms_used": axioms,
+        "traces_validated_against_impl": len(results), "evaluations": images,
+        "distinct_nontrivial": len({(r[1]["save"], r[1]["seg"], r[5], r[6]) for r in results}),
+        "rule": "per history: every completed file mutation (create/append/overwrite/delete of log, index, offset, state files) yields a crash image; quick: 14 sampled events per history, the full image + up to 5 torn lengths {1,23,24,25,L-1,random} of an append; each image is recovered by a fresh real server process, every partition polled in full, one post-recovery send, polled again; evaluations = recovered images; distinct = distinct (save threshold, segment size, images, events) tuples",
+        "samples": [{"cfg": sample[1], "ops": sample[2][:30], "first_image_block": sample[3][len(sample[2]) + 1][:600] if len(sample[3]) > len(sample[2]) + 1 else ""}],
+        "file_mutation_events": events, "crash_images_recovered": images, "model_branches": cov,
+        "spec_violations": len(spec_v), "corr_diffs": len(corr_d), "known_finding_hits": known_hits, "exhaustive": False,
+    }
+    vlib.write_evidence(prop, tier, seed, coverage, ASSUME_NODE + [
+        "PARTIAL: a crash is a process death — completed write()s survive, the last one may be torn at any byte; what the filesystem does to un-synced data on power loss is not modelled",
+        "no-wait confirmation is not exercised here"], time.time() - t0, len(spec_v) + (1 if corr_d or bad else 0))
+    for m in msgs:
+        print(m)
+    if rc == 0:
+        print(f"OK property={prop} obligations={obligations} histories={len(results)} events={events} images={images}")
+    else:
+        for x in (spec_v + corr_d)[:6]:
+            print("  ", x[0], x[4][:400])
+    return rc
+
+
+PROPS["C04"] = {"run": run_c04}
